@@ -14,12 +14,16 @@ PROP = "C03"
 PROPERTY_FILE = "Properties/C03.v"
 GEN_DEPS = ["GenC01Trunc", "GenC04Triplet", "GenTieChain", "GenTieCoupling"]
 RULE = ("cases: CouplingMarkovChain(StepModel in 4 representations x variation flag, dyadic grids with 1..5 states per side) driven "
-        "through initialisation / pre_computation / next_level for 1..4 levels; at every level every fine increment: "
+        "through initialisation / pre_computation / next_level for 1..4 levels, next_level called BOTH with the engine's path managers and with "
+        "path_managers=None (CouplingSDE's call), each on finite- and infinite-variation drivers; at every level every fine increment: "
         "probability_to_right_jump (relative 2^-48), coupling_state at uniforms on both sides of the threshold and at random ones "
         "(exact), zero-rate states (ZeroDivisionError <-> None); the level state machine compared field by field (axes, h, origin, "
-        "fine/coarse squared diffusion coefficient, fine drift, frozen coarse drift); every SamplingMethod the constructor accepts is "
+        "fine/coarse squared diffusion coefficient, fine drift, frozen coarse drift) at EVERY level (groups levels and, for CouplingSDE's driver, "
+        "sdelevels), and the two coefficients against chains built afresh on the level-l / level-(l-1) grids (oracle); every SamplingMethod the constructor accepts is "
         "simulated; copula coupling: __coupling_state for every fine increment of 2-d grids on density-table Levy copulas (exact) at "
-        "uniforms around each cumulative corner probability.  oracle: brute-force sum_fine rate*P(fine->y) vs the rate of the chain "
+        "uniforms around each cumulative corner probability; the two-measure models (rates from one table, corner masses from another: groups "
+        "inflownd2m, jointnd) and the joint rule on the implementation PATCHED with a candidate repair (group statejoint, stream nd-repaired: the "
+        "oracle must find the identity, tables and Clayton x HEM).  oracle: brute-force sum_fine rate*P(fine->y) vs the rate of the chain "
         "built on the un-refined grid (1-d step models exact-ish 1e-12; 2-d table copulas and Clayton x real margins).  "
         "real stream: HEM/Merton/VG/CGMY on probability-step, geometric, with-bounds and uniform grids, levels 1-3, same brute-force "
         "oracle incl. the mass coupled to 0 (1e-8 of the intensity).  jump-time stream: 1-d CouplingSimulationWithJumpTimes / MaximumStep "
@@ -31,13 +35,21 @@ RULE = ("cases: CouplingMarkovChain(StepModel in 4 representations x variation f
         "the Coq composition coupling_state -> driver steps -> stacked Euler recursion (group sde, 1e-9); Libor model: sde drift at level 2 vs the level-1 process.  "
         "non-trivial = distinct (chain, level, increment) with an odd increment; a simulated path with at least one jump")
 MODELLED = ["CouplingSimulation.probability_to_right_jump / coupling_state / coupling_states_for_a_slice (exact correspondence groups state1d, "
-            "prob1d, slice1d), next_level bookkeeping (group levels), CouplingSimulation.simulate_diffusion_with_coupling of the fixed-dates "
+            "prob1d, slice1d), next_level bookkeeping = run_levels of C03_drift_diffusion_frozen (group levels: every level, both call modes "
+            "path managers / None, finite and infinite variation; group sdelevels: the driver of CouplingSDE at levels 1-3), CouplingSimulation.simulate_diffusion_with_coupling of the fixed-dates "
             "simulation (group diffusion, 1e-12); coupling_index is tied to coupling_state by theorem C03_coupling_state_is_index; the "
             "jump-time / maximum-step simulators (1-d and copula, incl. the fresh-normals simulate_diffusion_with_coupling override) have no Coq "
             "model: they are driven end to end and checked by the oracle check_coupled_path (copy / adjacency per coordinate, same Brownian increments)",
             "CouplingLevyCopulaSimulation.__coupling_state in dimension 2 (Model/CouplingNd.v: coupling_state2 / prob_to2 = the code as it is, exact "
-            "correspondence on density tables, equal and unequal axes); coupling_state2_joint / prob_to2_joint = the REPAIRED rule (joint corner "
-            "masses), a specification no code implements yet; dimension 3 (oracle only) and the diffusion matrices (scipy.linalg.sqrtm) are not modelled",
+            "correspondence on density tables, equal-length axes with equal or different points); coupling_state2_joint / prob_to2_joint = the REPAIRED rule "
+            "(joint corner masses), a SPECIFICATION no code in /repo implements: it is evaluated by cases only against the harness's candidate repair "
+            "(_repaired_coupling_state patched over __coupling_state: groups statejoint, jointnd, stream nd-repaired). TWO MEASURES "
+            "(Model/CouplingNdTwoMeasures.v, audit4 B1): rates = fine_process.model.mass (deep copy with margins truncated to the grid, "
+            "markovchainlevycopula.py:95-96), corner masses = coupling_process.model.mass (un-truncated, couplinglevycopula.py:177): inflow2_code / "
+            "inflow2_joint_2m keep them apart (group inflownd2m on pairs of tables; on the implementation the two are its own mass functions, stream nd-real). "
+            "Axes of different LENGTHS are outside the model: CTMCGrid.right_point(CoordinateND) clamps every axis with len(axes[0]) (spatial.py:93) where "
+            "Model/Grid.v clamps each axis with its own length; no library constructor builds such a grid. Dimension 3 (oracle only) and the diffusion "
+            "matrices (scipy.linalg.sqrtm) are not modelled",
             "Poisson thinning / 'same law' of the coarse path: the probabilistic step from equal rates, drift and diffusion to equal "
             "law is on paper, not formalised; C03_same_generator_1d packages the three equalities (rates, diffusion coefficient, drift) on the "
             "level machine's own state for every level, so the only paper step left is 'equal generator data => equal law'",
@@ -56,33 +68,58 @@ ASSUMPTIONS = ["mass a b = fine_process.model.mass, additive and non-negative on
                "middle(x,x)=x at non-zero x; proved instance: both the arithmetic mean",
                "the coupling uniform is uniform on [0,1) and independent of the fine increment (C08)",
                "2-d: mass2 a b = model.mass(a, b) additive in each coordinate and non-negative on boxes one of whose coordinate intervals "
-               "avoids 0, respects ==; both axes admissible with the same origin index (CTMCGrid has one origin_coordinate); middle = arithmetic mean"]
+               "avoids 0, respects ==; both axes admissible with the same origin index (CTMCGrid has one origin_coordinate) and OF EQUAL LENGTH "
+               "(spatial.py:93 clamps with len(axes[0])); middle = arithmetic mean",
+               "C03_telescoping_nd_joint: rate2 = fine_process.model.mass with the properties above and same_measure: the corner masses are read from "
+               "that same measure (forall a b, cmass2 a b == rate2 a b). The code does NOT meet same_measure (second cause of F-C03-1); the harness's "
+               "candidate repair does"]
 THEOREM_NOTES = {
     "number system": "proved over Q inside a Section with an abstract additive non-negative interval mass (simplification of DESIGN 2.1)",
-    "known finding": "a copula-coupling mismatch is accepted as F-C03-1 only if the implementation's inflow equals, state by state, the "
-                     "prediction of the faithful model of the recorded defect (Python re-statement tied to Coq's inflow2 by the group "
-                     "inflownd); any other mismatch is a new violation (matches_known)",
+    "known finding": "F-C03-1 has TWO causes: (1) one odd axis: corner masses from the MARGIN over that axis instead of the joint mass half cell x cell; "
+                     "(2) every corner mass is read from coupling_process.model (un-truncated, couplinglevycopula.py:177) while the rates come from "
+                     "fine_process.model (margins truncated to the grid): this also hits 'both coordinates odd'. The oracle reports per input which cause is "
+                     "active (fields cause / causes = worst deviation of the two single-cause models from the coarse rates; tables whose support the grid "
+                     "covers: margin rule only; Clayton x HEM: both, 5.4e-2 and 7.8e-4). matches_known RE-COMPUTES: it rebuilds the objects from the "
+                     "replay's input fields, measures the implementation's inflow of the reported coarse state again, and accepts only if that inflow is "
+                     "the reported one, equals the prediction of the faithful two-measure model of the code (Python re-statement tied to Coq's inflow2 / "
+                     "inflow2_code_tab by the groups inflownd / inflownd2m), the prediction violates the property, one of the two causes is active and the "
+                     "repaired rule gives the coarse rate there; any other mismatch is a new violation",
     "C03_coupling_law": "links prob_to/inflow to coupling_index/coupling_state: target p+1 iff u < pr, p-1 iff u >= pr",
     "C03_telescoping_nd_refuted": "F-C03-1: the faithful 2-d model of __coupling_state violates the identity on an explicit density table "
                                   "(vm_compute witness: inflow 23/36 vs coarse rate 1/4 at coarse state (1,0)); the implementation is replayed on the same table",
     "n-d positive theorems": "C03_copy_rule_nd, C03_adjacency_nd, C03_corner1_is_law, C03_corner2_is_law (corner probabilities are a law when the "
                              "denominator is not 0), C03_frozen_nd (any number of next_level calls)",
-    "C03_telescoping_nd_joint": "GENERAL (dimension 2): for any rectangle mass additive per coordinate and non-negative on boxes avoiding the origin, any "
-                                "two admissible axes (they may differ) with the common origin index, and every coarse state other than the origin: "
-                                "sum_fine rate x P_joint(fine -> y) == coarse rate of y, P_joint = prob_to2_joint (corner probabilities of one odd axis "
-                                "from the JOINT mass half-cell x cell).  It is a theorem about the REPAIRED rule; the code as it is (margin masses) is "
-                                "refuted by C03_telescoping_nd_refuted.  Proof: rate x P = mass of (part sent along axis 1) x (part sent along axis 2) "
-                                "(flow2), then the 1-d tiling lemma (strip) along each axis.  Dimension >= 3 is not proved",
-    "C03_coupling_law_nd_*": "link prob_to2 / prob_to2_joint (used by the inflow) to coupling_state2 / coupling_state2_joint as functions of the coupling "
+    "C03_telescoping_nd_joint": "RESTATED (audit4 B1) with the code's two measures. GENERAL (dimension 2): for any rate measure rate2 additive per "
+                                "coordinate and non-negative on boxes avoiding the origin, any corner measure cmass2 with same_measure (cmass2 a b == rate2 a b "
+                                "for all boxes), any two admissible axes of EQUAL LENGTH (their points may differ) with the common origin index, and every "
+                                "coarse state other than the origin: sum_fine rate2(fine cell) x P_joint(fine -> y) == rate2(coarse cell of y), P_joint = "
+                                "prob_to2_joint over cmass2 (corner probabilities of one odd axis from the JOINT mass half-cell x cell).  It is a theorem about "
+                                "a SPECIFICATION of a repair, not about code in /repo: the code fails it twice (margin masses: C03_telescoping_nd_refuted; "
+                                "second measure: C03_telescoping_nd_second_measure_refuted).  The specification is evaluated against the harness's candidate "
+                                "repair patched over __coupling_state (statejoint, jointnd, nd-repaired).  length xs = length ys is not used by the proof; it "
+                                "keeps the statement inside the grids on which the model's cells are the code's (spatial.py:93).  cmarg is a dummy parameter "
+                                "(the joint rule never reads margins).  Proof: extensionality of prob_to2_joint in its mass function, then rate x P = mass of "
+                                "(part sent along axis 1) x (part sent along axis 2) (flow2) and the 1-d tiling lemma (strip) along each axis.  Dimension >= 3 "
+                                "is not proved",
+    "C03_telescoping_nd_second_measure_refuted": "second cause of F-C03-1, isolated: JOINT rule, rates from a non-negative table psr, corner masses from "
+                                                 "another non-negative table psc of the same total mass: inflow 1 vs coarse rate 1/4 at coarse state (1,0) "
+                                                 "(fine state (3/2,1/2), both coordinates odd, goes to (1,0) with probability 1 instead of 1/4); with psc := psr "
+                                                 "the identity holds at the same state (vm_compute). On the implementation the two measures are "
+                                                 "coupling_process.model / fine_process.model (stream nd-real: 7.8e-4 at coarse state (0,0.1))",
+    "C03_coupling_law_nd_*": "(_odd_even / _even_odd hold BY CONSTRUCTION: coupling_state2 and prob_to2 are written from the same corner1, the proof "
+                             "is a case split on the thresholds and uses no property of the masses; what pins them to the code is the exact correspondence "
+                             "statend / statejoint.  _odd_odd uses corner2_is_law.)  They link prob_to2 / prob_to2_joint (used by the inflow) to coupling_state2 / coupling_state2_joint as functions of the coupling "
                              "uniform, for both rules (parameter joint): one odd axis -> left neighbour iff u <= pl, right iff pl < u <= pl+pr; both "
                              "odd -> corner k iff cum_(k-1) < u <= cum_k (itertools.product([-1,1]) order); all other targets have probability 0. "
                              "The thresholds are '<=' as in the code (u <= probability); u = 0 has probability 0",
     "C03_telescoping_nd_joint_instance": "kept: the witness table, all 24 coarse states by vm_compute (now an instance of C03_telescoping_nd_joint; "
-                                         "that step_mass2 of a non-negative table satisfies the hypotheses of the general theorem is NOT proved in Coq)",
+                                         "that step_mass2 of a non-negative table satisfies the hypotheses of the general theorem is NOT proved in Coq; "
+                                         "C03_two_measures_nonvacuous discharges them for the area measure instead)",
     "C03_same_generator_1d": "for CTMCGrid's arithmetic middle, any well-formed 1-d grid and any number n of next_level calls: jump rates of the "
                              "coarse component (coupled inflow on the state's own grid) == q_entry of the level-n chain, c_sig2_coarse = sig2_of(level-n "
                              "grid), frozen drift == drift_of(level-n grid).  Composition of C13 refine_n_grid_wf, C03_telescoping_1d and "
-                             "C03_drift_diffusion_frozen.  The n-d analogue is not stated (the code's n-d rates do not telescope: F-C03-1)",
+                             "C03_drift_diffusion_frozen (a repackaging: sig2_of and drift_of are arbitrary functions of the grid, so two of the "
+                             "three equalities are bookkeeping of run_levels).  The n-d analogue is not stated (the code's n-d rates do not telescope: F-C03-1)",
     "C03_sde": "1-d driver, any level l = n+1, any coefficient a whose stacked call restricts to a on each component (Constant, DiagX, sigma(t)*x), any "
                "sde-drift constructor b_of, any driver path the driver accepts: the machine's driver state IS run_levels (so C03_same_generator_1d applies "
                "to the coarse driver's jump rates), mc_drift_2h = driver drift of level n, coarse coefficient^2 = sig2_of(level-n grid), and the coarse rows "
@@ -104,7 +141,7 @@ THEOREM_NOTES = {
     "expected coarse payoff = expected fine payoff at level l-1": "derived on paper from C03_telescoping_1d + C03_drift_diffusion_frozen + "
                                                                   "C03_same_brownian_increments + Poisson thinning; not formalised",
 }
-LEVEL_TEXT = ("Proof: 30 Coq theorems + 5 examples (closed under the global context). One-dimensional coupling, for every admissible axis, every middle "
+LEVEL_TEXT = ("Proof: 31 Coq theorems + 6 examples (closed under the global context). One-dimensional coupling, for every admissible axis, every middle "
               "function with the stated properties and every additive non-negative mass: after refine the coarse grid is the even "
               "indices and the coarse cells are bounded by the odd states; coupling_state copies even increments and moves odd ones to "
               "an adjacent coarse state; sum over fine states of rate x P(fine -> y) equals the coarse chain's rate of y (states of "
@@ -112,10 +149,15 @@ LEVEL_TEXT = ("Proof: 30 Coq theorems + 5 examples (closed under the global cont
               "machine the coarse diffusion coefficient and frozen drift are the fine ones of level l-1 and both components use the "
               "same Brownian increments; C03_same_generator_1d packages rates + diffusion + drift of the coarse component as equal to the "
               "level-(l-1) chain's generator data at every level. Copula coupling (dimension 2): the faithful model of the code REFUTES the "
-              "identity (C03_telescoping_nd_refuted, finding F-C03-1, replayed on the implementation); for the repaired rule (joint corner "
-              "masses) the identity is PROVED in general (C03_telescoping_nd_joint: any additive non-negative rectangle mass, any two "
-              "admissible axes); the law of coupling_state2 as a function of the coupling uniform is linked to prob_to2 for both rules "
-              "(C03_coupling_law_nd_*). Tied to /repo by exact vm_compute correspondence on step-measure chains and density-table copulas; "
+              "identity for two independent reasons (finding F-C03-1, replayed on the implementation, the oracle says which reason is active per input): "
+              "margin instead of joint corner masses for one odd axis (C03_telescoping_nd_refuted) and corner masses read from the un-truncated "
+              "coupling_process.model while the rates come from the truncated fine_process.model (C03_telescoping_nd_second_measure_refuted; also wrong "
+              "when both coordinates are odd). For a SPECIFICATION of a repair (joint corner masses read from the rate measure itself) the identity is "
+              "proved in general (C03_telescoping_nd_joint: two measures with the hypothesis same_measure, any additive non-negative rate measure, any two "
+              "admissible axes of equal length); no code in /repo implements that rule, it is evaluated by cases against the harness's candidate repair "
+              "patched over __coupling_state (exact on tables; the oracle finds the identity on tables and on Clayton x HEM). The law of coupling_state2 "
+              "as a function of the coupling uniform is linked to prob_to2 for both rules (C03_coupling_law_nd_*; one odd axis: by construction). Axes "
+              "of different lengths are outside the model (CTMCGrid.right_point clamps with len(axes[0]), spatial.py:93). Tied to /repo by exact vm_compute correspondence on step-measure chains and density-table copulas; "
               "jump-time / maximum-step coupled simulators (1-d and copula) driven end to end by an oracle. SDE coupling (1-d driver): at every level "
               "the coarse rows of CouplingSDE.simulate_one_path_with_coupling are the Euler scheme with the level-(l-1) driver drift and coefficient on "
               "the coupled coarse driver steps, the same scheme function as the previous level's fine component (C03_sde, C03_sde_same_scheme), tied on "
@@ -275,7 +317,7 @@ def correspond(res):
     _jump_time_simulators(res, rng, viol)
     _sde(res, rng, viol, groups)
     header = ("From Coq Require Import ZArith QArith Qabs List Bool.\nFrom RV Require Import Base.QB Model.Grid Gen.GenC01Trunc Gen.GenC04Triplet "
-              "Model.Chain Model.Drift Model.Coupling1d Model.CouplingNd Base.QVec Model.Euler Model.CouplingSde.\nImport ListNotations.\nOpen Scope Q_scope.\n" + SDE_HEADER +
+              "Model.Chain Model.Drift Model.Coupling1d Model.CouplingNd Model.CouplingNdTwoMeasures Base.QVec Model.Euler Model.CouplingSde.\nImport ListNotations.\nOpen Scope Q_scope.\n" + SDE_HEADER +
               "Definition oq_eqb (a b : option Q) : bool := match a, b with Some x, Some y => Qeq_bool x y | None, None => true | _, _ => false end.\n"
               "Definition oq_close (a b : option Q) : bool := match a, b with Some x, Some y => Qle_bool (Qabs (x - y)) ((1 + Qabs y) * (1 # 281474976710656)) "
               "| None, None => true | _, _ => false end.\n"
@@ -294,6 +336,35 @@ def correspond(res):
 
 
 # ------------------------------------------------------------------------------------------ one-dimensional coupling
+_CLOSE = "(fun x y => Qle_bool (Qabs (x - y)) ((1 + Qabs y) * (1 # 17592186044416)))"
+LEVELS_TY = "list (Q * Q * Q) * list Q * nat * Q * Q * Z * bool * Q * Q * nat * (list Q * Q * nat * Q * Q * Q * Q)"
+LEVELS_CHECK = ("fun c => match c with (ps, xs, o, h, md, rep, fv, a, sigma, n, (xs2, h2, o2, sf, sc, df, dc)) => "
+                "let s := run_levels amid (step_sig2_of ps sigma fv) (step_drift_of ps md rep fv a) 0 n (mk_grid h o [xs]) in "
+                "Nat.eqb (c_level s) n && qll_eqb (g_axes (c_grid s)) [xs2] && Qeq_bool (g_h (c_grid s)) h2 && Nat.eqb (g_o (c_grid s)) o2 && "
+                f"{_CLOSE} sf (c_sig2_fine s) && {_CLOSE} sc (c_sig2_coarse s) && Qeq_bool df (c_drift_fine s) && "
+                "match c_drift_coarse s with Some d => Qeq_bool dc d | None => false end end")
+
+
+def level_chain_sigma(c):
+    """equivalent diffusion coefficient of a chain built afresh by the library on a copy of the coupling's current grid: what the level-l
+    component of the pair must use, whatever next_level did to the coupling's own fields"""
+    from rpylib.process.markovchain.markovchain import MarkovChainProcess
+    with warnings.catch_warnings():
+        warnings.simplefilter("ignore")
+        return float(MarkovChainProcess(c.model, method=c.method, grid=copy.deepcopy(c.grid)).equivalent_diffusion_coefficient)
+
+
+def oracle_sigma_1d(viol, c, sig_chain, sig_chain_prev, ctx):
+    """the Brownian part of the pair: fine coefficient = that of the chain of level l, coarse coefficient = that of the chain of level l-1
+    (both recomputed on chains built afresh by the library; implementation only)"""
+    sig_f, sig_c = float(c.equivalent_diffusion_coefficient_fine), float(c.equivalent_diffusion_coefficient_coarse)
+    if sig_f != sig_chain or sig_f != float(c.fine_process.equivalent_diffusion_coefficient):
+        viol("fine diffusion coefficient of the coupled pair is not the coefficient of the chain built on the refined grid (level l)",
+             got=sig_f, want=sig_chain, **ctx)
+    if sig_c != sig_chain_prev:
+        viol("coarse diffusion coefficient is not the previous level's fine coefficient", got=sig_c, want=sig_chain_prev, **ctx)
+
+
 def _one_d(res, rng, viol, groups):
     from rpylib.distribution.samplingfactory import create_q_vector
     from stepmeasure import random_step_measure, random_dyadic_axis, make_grid, step_spec, build_model
@@ -311,22 +382,29 @@ def _one_d(res, rng, viol, groups):
             nu.breaks[-1] += Fr(rng.randrange(1, 5), 2)
         if nu.moment_q(axis[0], (axis[o - 1] + axis[o]) / 2, 0) + nu.moment_q((axis[o] + axis[o + 1]) / 2, axis[-1], 0) == 0:
             continue
-        fv = rng.random() < 0.5
+        rng.random()
+        # next_level is called in BOTH ways its callers use: with the engine's list of path managers (it % 2 == 0) and with path_managers=None
+        # (CouplingSDE's call: it % 2 == 1); each way gets finite- and infinite-variation drivers (the equivalent diffusion coefficient depends on h
+        # only for the latter)
+        with_managers, fv = it % 2 == 0, (it // 2) % 2 == 1
         rep = rng.choice(["ZERO", "CENTER", "ONEONE", "TILDE"] if fv else ["CENTER", "ONEONE", "TILDE"])   # ZERO requires finite variation (ValueError otherwise)
         nu.finite_variation = fv
         a, sigma = Fr(rng.randrange(-8, 9), 8), Fr(rng.randrange(0, 5), 4)
         spec = step_spec(nu, a=a, sigma=sigma, representation=rep)
         grid = make_grid(axis, o, h)
         nlevels = rng.randrange(1, 5) if nl + nr <= 5 else rng.randrange(1, 3)
-        ctx0 = dict(kind="1d", model=spec, axis=[float(x) for x in axis], o=o, h=float(h))
+        ctx0 = dict(kind="1d", model=spec, axis=[float(x) for x in axis], o=o, h=float(h), path_managers=with_managers)
         try:
             with warnings.catch_warnings():
                 warnings.simplefilter("ignore")
                 c, pms, product = build_coupling_1d(build_model(spec), grid)
+                if not with_managers:
+                    pms = None
         except Exception as e:  # noqa
             viol(f"building the coupling raises {type(e).__name__}", reason=str(e)[:200], **ctx0)
             continue
         alias_grid = c.grid
+        sig_chain_prev = level_chain_sigma(c)
         for level in range(1, nlevels + 1):
             ctx = dict(ctx0, level=level)
             axis_coarse = c.grid.axes[0].copy()
@@ -338,17 +416,25 @@ def _one_d(res, rng, viol, groups):
                 with warnings.catch_warnings():
                     warnings.simplefilter("ignore")
                     c.next_level(mc_paths=2, path_managers=pms, product=product)
+                    sig_chain = level_chain_sigma(c)
             except Exception as e:  # noqa
                 viol(f"next_level raises {type(e).__name__}", reason=str(e)[:200], **ctx)
                 break
-            path = np.asarray(pms[-1].deterministic_path(np.array([0.0, 1.0])), dtype=float)
-            drift_fine, drift_coarse = float(path[0][1] - path[0][0]), float(path[1][1] - path[1][0])
+            if with_managers:
+                path = np.asarray(pms[-1].deterministic_path(np.array([0.0, 1.0])), dtype=float)
+                drift_fine, drift_coarse = float(path[0][1] - path[0][0]), float(path[1][1] - path[1][0])
+            else:       # no path manager: the caller freezes the drift itself (CouplingSDE: mc_drift_2h = the process_drift() read before the call)
+                drift_fine, drift_coarse = float(c.fine_process.process_drift()), drift_prev
             sig_f, sig_c = float(c.equivalent_diffusion_coefficient_fine), float(c.equivalent_diffusion_coefficient_coarse)
+            res.bump("next_level_call", f"{'path managers' if with_managers else 'path_managers=None'}, {'finite' if fv else 'INFINITE'} variation, "
+                                        f"coefficient {'changes' if sig_f != sig_prev else 'unchanged'} with h")
             # ---- oracle: frozen drift / diffusion, level bookkeeping
             if c.level != level or c.grid is not alias_grid or c.fine_process.grid is not c.grid:
                 viol("next_level: level counter / grid identity broken", **ctx)
+            oracle_sigma_1d(viol, c, sig_chain, sig_chain_prev, ctx)
             if sig_c != sig_prev:
                 viol("coarse diffusion coefficient is not the previous level's fine coefficient", got=sig_c, want=sig_prev, **ctx)
+            sig_chain_prev = sig_chain
             if drift_coarse != drift_prev or drift_fine != float(c.fine_process.process_drift()):
                 viol("coarse drift is not the previous level's (frozen) fine drift", got=drift_coarse, want=drift_prev, **ctx)
             oracle_level_1d(viol, c, q_coarse, axis_coarse, o_coarse, ctx)
@@ -372,6 +458,13 @@ def _one_d(res, rng, viol, groups):
                 for u in us:
                     v = coupling_state_impl(c, inc, u)
                     state_cases.append(f"({nu.coq()}, {lst([qlit(x) for x in xs])}, {natlit(o2)}, {zlit(inc)}, {qlit(u)}, {opt(v, qlit)})")
+            # the level machine (run_levels, C03_drift_diffusion_frozen) at EVERY level, for both ways of calling next_level
+            md = float(c.fine_process.model.drift())
+            res.count(("levels", it, level, with_managers), kind="next_level bookkeeping vs run_levels")
+            level_cases.append(
+                f"({nu.coq()}, {lst([qlit(float(x)) for x in axis])}, {natlit(o)}, {qlit(h)}, {qlit(md)}, {zlit(REP_VAL[rep])}, {blit(fv)}, "
+                f"{qlit(a)}, {qlit(sigma)}, {natlit(level)}, ({lst([qlit(x) for x in xs])}, {qlit(float(c.grid.h))}, {natlit(o2)}, "
+                f"{qlit(sig_f ** 2)}, {qlit(sig_c ** 2)}, {qlit(drift_fine)}, {qlit(drift_coarse)}))")
             if level == nlevels:
                 sim = c._path_coupling_simulation
                 # coupling_states_for_a_slice: a run of increments with its sequence of coupling uniforms
@@ -395,11 +488,6 @@ def _one_d(res, rng, viol, groups):
                 res.count(("diffusion", it, tuple(w)), kind="simulate_diffusion_with_coupling")
                 diff_cases.append(f"({qlit(sig_f)}, {qlit(sig_c)}, {lst([qlit(x) for x in sq])}, {lst([qlit(x) for x in w])}, "
                                   f"{lst([qlit(float(x)) for x in np.ravel(dfine)])}, {lst([qlit(float(x)) for x in np.ravel(dcoarse)])})")
-                md = float(c.fine_process.model.drift())
-                level_cases.append(
-                    f"({nu.coq()}, {lst([qlit(float(x)) for x in axis])}, {natlit(o)}, {qlit(h)}, {qlit(md)}, {zlit(REP_VAL[rep])}, {blit(fv)}, "
-                    f"{qlit(a)}, {qlit(sigma)}, {natlit(nlevels)}, ({lst([qlit(x) for x in xs])}, {qlit(float(c.grid.h))}, {natlit(o2)}, "
-                    f"{qlit(sig_f ** 2)}, {qlit(sig_c ** 2)}, {qlit(drift_fine)}, {qlit(drift_coarse)}))")
                 res.bump("levels", nlevels)
     groups.append(("state1d", "list (Q * Q * Q) * list Q * nat * Z * Q * option Q",
                    "fun c => match c with (ps, xs, o, inc, u, e) => oq_eqb (step_coupling_state ps xs o inc u) e end", state_cases))
@@ -412,13 +500,7 @@ def _one_d(res, rng, viol, groups):
     groups.append(("diffusion", "Q * Q * list Q * list Q * list Q * list Q",
                    f"fun c => match c with (cf, cc, dts, w, ef, ec) => {lclose} ef (fst (diffusion_pair cf cc dts w)) && "
                    f"{lclose} ec (snd (diffusion_pair cf cc dts w)) end", diff_cases))
-    close = "(fun x y => Qle_bool (Qabs (x - y)) ((1 + Qabs y) * (1 # 17592186044416)))"
-    groups.append(("levels", "list (Q * Q * Q) * list Q * nat * Q * Q * Z * bool * Q * Q * nat * (list Q * Q * nat * Q * Q * Q * Q)",
-                   "fun c => match c with (ps, xs, o, h, md, rep, fv, a, sigma, n, (xs2, h2, o2, sf, sc, df, dc)) => "
-                   "let s := run_levels amid (step_sig2_of ps sigma fv) (step_drift_of ps md rep fv a) 0 n (mk_grid h o [xs]) in "
-                   f"Nat.eqb (c_level s) n && qll_eqb (g_axes (c_grid s)) [xs2] && Qeq_bool (g_h (c_grid s)) h2 && Nat.eqb (g_o (c_grid s)) o2 && "
-                   f"{close} sf (c_sig2_fine s) && {close} sc (c_sig2_coarse s) && Qeq_bool df (c_drift_fine s) && "
-                   "match c_drift_coarse s with Some d => Qeq_bool dc d | None => false end end", level_cases))
+    groups.append(("levels", LEVELS_TY, LEVELS_CHECK, level_cases))
 
 
 def _samplers(res, rng, viol):
@@ -541,6 +623,54 @@ def coupling_state_nd_impl(c, inc, u):
             return None
 
 
+def _repaired_coupling_state(self, increment, axis_coordinates=None):
+    """A CANDIDATE REPAIR of F-C03-1, written against the real objects (= Coq coupling_state2_joint under the hypothesis same_measure of
+    C03_telescoping_nd_joint): the corner probabilities are the masses of (corner half cells of the odd axes) x (whole cells of the even axes)
+    over the mass of the fine cell, ALL read from fine_process.model (the truncated model the rates come from).  Same uniform, same corner
+    order (itertools.product([-1, 1])) and same `u <= probability` threshold as the code.  Used only under `repaired_rule()`."""
+    cp = self.coupling_process
+    grid, dim = cp.grid, len(increment)
+    position = grid.origin_coordinate + increment
+    value = grid[position]
+    odd = [k for k in range(dim) if increment[k] % 2]
+    if not odd:
+        return value
+    mass = cp.fine_process.model.mass
+    pos = [position[k] for k in range(dim)]
+
+    def at(k, c):
+        axis = grid.axes[k]
+        return axis[min(len(axis) - 1, max(0, c))]
+    lo = [0.5 * (at(k, pos[k] - 1) + value[k]) for k in range(dim)]
+    hi = [0.5 * (value[k] + at(k, pos[k] + 1)) for k in range(dim)]
+    total_mass = mass(tuple(lo), tuple(hi))
+    u = cp._uniform.sample()
+    probability = 0
+    for p in itertools.product([-1, 1], repeat=len(odd)):
+        a, b, out = list(lo), list(hi), list(value)
+        for k, d in zip(odd, p):
+            nb = at(k, pos[k] + d)
+            m = 0.5 * (nb + value[k])
+            a[k], b[k], out[k] = min(value[k], m), max(value[k], m), nb
+        probability += mass(tuple(a), tuple(b)) / total_mass
+        if u <= probability:
+            return np.array(out)
+    raise ValueError("repaired rule: probability={:6f}, u={:6f}".format(probability, u))
+
+
+class repaired_rule:
+    """replace CouplingLevyCopulaSimulation.__coupling_state by the candidate repair (class attribute; restored on exit)"""
+    NAME = "_CouplingLevyCopulaSimulation__coupling_state"
+
+    def __enter__(self):
+        from rpylib.process.coupling.couplinglevycopula import CouplingLevyCopulaSimulation as K
+        self.K, self.old = K, getattr(K, self.NAME)
+        setattr(K, self.NAME, _repaired_coupling_state)
+
+    def __exit__(self, *a):
+        setattr(self.K, self.NAME, self.old)
+
+
 def corner_law_nd(c, inc, tol_bits=34):
     """law of the coupled coarse value as a function of the uniform, read off the implementation by bisection on u:
     returns {value tuple: probability} (None if the state raises for every u)"""
@@ -579,11 +709,15 @@ def cell_nd(axes, idx):
     return lo, hi
 
 
-def faithful_inflow(axis, o, mass_rate, mass_joint, mass_marg, zero=0, axis2=None):
-    """What the RECORDED defect F-C03-1 predicts: the coupled coarse inflow of the faithful model of the current
-    couplinglevycopula.__coupling_state (Model/CouplingNd.v re-stated over arbitrary mass functions): corner probabilities of
-    ONE odd axis from the margin over that axis, joint quarter masses when both axes are odd.  axis = refined axis (list),
-    o = its origin index.  Returns {coarse value pair: inflow}.  Exact when the mass functions return Fractions."""
+def faithful_inflow(axis, o, mass_rate, mass_joint, mass_marg, zero=0, axis2=None, rule="code"):
+    """The coupled coarse inflow of the 2-d models of Model/CouplingNd.v / CouplingNdTwoMeasures.v re-stated over arbitrary mass functions,
+    with the code's TWO measures kept apart: mass_rate = fine_process.model.mass (rates, truncated model), mass_joint / mass_marg =
+    coupling_process.model.mass (corner masses, un-truncated model).
+      rule="code"  (Coq inflow2_code; with one measure: inflow2) = what the RECORDED defect F-C03-1 predicts: corner probabilities of ONE odd
+                   axis from the margin over that axis, joint quarter masses when both axes are odd;
+      rule="joint" (Coq inflow2_joint_2m; with one measure: inflow2_joint) = the repaired rule: ONE odd axis -> joint mass of
+                   (half cell of the odd axis) x (cell of the even axis); mass_marg is not used.
+    axis = refined axis (list), o = its origin index.  Returns {coarse value pair: inflow}.  Exact when the mass functions return Fractions."""
     axes = (list(axis), list(axis2 if axis2 is not None else axis))
     half = (lambda x, y: (x + y) / 2)
     out = {}
@@ -612,19 +746,19 @@ def faithful_inflow(axis, o, mass_rate, mass_joint, mass_marg, zero=0, axis2=Non
             if not odd1 and not odd2:
                 add((x1, x2), rate)
             elif odd1 and not odd2:
-                tot = mass_marg(0, l1, h1)
+                tot = mass_marg(0, l1, h1) if rule == "code" else mass_joint((l1, l2), (h1, h2))
                 if tot == 0:
                     continue
                 for d in (-1, 1):
                     a, b = halfcell(0, p1, d)
-                    add((axes[0][p1 + d], x2), rate * mass_marg(0, a, b) / tot)
+                    add((axes[0][p1 + d], x2), rate * (mass_marg(0, a, b) if rule == "code" else mass_joint((a, l2), (b, h2))) / tot)
             elif odd2 and not odd1:
-                tot = mass_marg(1, l2, h2)
+                tot = mass_marg(1, l2, h2) if rule == "code" else mass_joint((l1, l2), (h1, h2))
                 if tot == 0:
                     continue
                 for d in (-1, 1):
                     a, b = halfcell(1, p2, d)
-                    add((x1, axes[1][p2 + d]), rate * mass_marg(1, a, b) / tot)
+                    add((x1, axes[1][p2 + d]), rate * (mass_marg(1, a, b) if rule == "code" else mass_joint((l1, a), (h1, b))) / tot)
             else:
                 tot = mass_joint((l1, l2), (h1, h2))
                 if tot == 0:
@@ -636,18 +770,19 @@ def faithful_inflow(axis, o, mass_rate, mass_joint, mass_marg, zero=0, axis2=Non
     return out
 
 
-def oracle_nd(viol, c, coarse_chain, axis_coarse, o_coarse, ctx, tol=1e-6, predicted=None):
-    """brute-force sum_fine rate x P(fine -> y) (P read off the implementation by bisection on the coupling uniform) against
-    (1) the rate of the chain built on the un-refined grid = the property, and (2) `predicted` = what the faithful model of
-    the recorded defect F-C03-1 gives for the same input.  A mismatch with (1) that is NOT explained state by state by (2)
-    is reported as a new violation; only a mismatch that agrees with (2) everywhere carries the tag F-C03-1."""
+def implementation_inflow_nd(c, only=None):
+    """brute-force sum_fine rate x P(fine -> y) on the real objects: rate = fine_process.model.mass of the fine cell, P read off
+    __coupling_state by bisection on the coupling uniform.  only = a coarse index pair: restrict to the fine states that can reach it.
+    Returns ({coarse value pair: inflow}, None) or (None, (reason, increment, value))"""
     grid = c.grid
     faxes = [[float(x) for x in a] for a in grid.axes]
     o = grid.origin_coordinate.value[0]
-    caxes = axis_coarse if isinstance(axis_coarse[0], (list, tuple, np.ndarray)) else [axis_coarse, axis_coarse]
-    caxes = [[float(x) for x in a] for a in caxes]
     inflow = {}
-    for p in itertools.product(range(len(faxes[0])), range(len(faxes[1]))):
+    cells = itertools.product(range(len(faxes[0])), range(len(faxes[1])))
+    if only is not None:
+        cells = [(p1, p2) for p1 in range(2 * only[0] - 1, 2 * only[0] + 2) for p2 in range(2 * only[1] - 1, 2 * only[1] + 2)
+                 if 0 <= p1 < len(faxes[0]) and 0 <= p2 < len(faxes[1])]
+    for p in cells:
         if p == (o, o):
             continue
         lo, hi = cell_nd(faxes, p)
@@ -659,15 +794,45 @@ def oracle_nd(viol, c, coarse_chain, axis_coarse, o_coarse, ctx, tol=1e-6, predi
         inc = (p[0] - o, p[1] - o)
         law = corner_law_nd(c, inc)
         if law is None:
-            viol("copula coupling raises for a fine state of positive rate", increment=list(inc), **ctx)
-            return
+            return None, ("raises", inc, None)
         for v, pr in law.items():
-            if v[0] not in caxes[0] or v[1] not in caxes[1]:
-                viol("copula coupling: a coupled coarse value is not a state of the coarse grid (own axis of each coordinate)",
-                     finding="F-C03-3", increment=list(inc), value=list(v), **ctx)
-                return
+            if v[0] not in faxes[0][0::2] or v[1] not in faxes[1][0::2]:
+                return None, ("off-grid", inc, v)
             inflow[v] = inflow.get(v, 0.0) + rate * pr
+    return inflow, None
+
+
+def cause_label(causes, tol):
+    """which of the two recorded causes of F-C03-1 is active on this input (deviation from the coarse rates of the two single-cause models)"""
+    a, b = causes.get("margin_rule", 0.0) > tol, causes.get("second_measure", 0.0) > tol
+    return "margin rule + second measure" if a and b else "margin rule" if a else "second measure" if b else "none"
+
+
+def oracle_nd(viol, c, coarse_chain, axis_coarse, o_coarse, ctx, tol=1e-6, predicted=None, alternatives=None):
+    """brute-force sum_fine rate x P(fine -> y) (P read off the implementation by bisection on the coupling uniform) against
+    (1) the rate of the chain built on the un-refined grid = the property, and (2) `predicted` = what the faithful model of
+    the recorded defect F-C03-1 gives for the same input.  A mismatch with (1) that is NOT explained state by state by (2)
+    is reported as a new violation; only a mismatch that agrees with (2) everywhere carries the tag F-C03-1.
+    alternatives = {"margin_rule": inflow of the code's margin rule with ALL masses from the truncated model (first cause alone),
+    "second_measure": inflow of the JOINT rule with corner masses from the un-truncated model (second cause alone)}: their worst deviation
+    from the coarse rates goes into the violation (`causes`, `cause`), so that the two causes of F-C03-1 are told apart per input."""
+    caxes = axis_coarse if isinstance(axis_coarse[0], (list, tuple, np.ndarray)) else [axis_coarse, axis_coarse]
+    caxes = [[float(x) for x in a] for a in caxes]
+    faxes = [[float(x) for x in a] for a in c.grid.axes]
+    inflow, err = implementation_inflow_nd(c)
+    if err is not None:
+        reason, inc, v = err
+        if reason == "raises":
+            viol("copula coupling raises for a fine state of positive rate", increment=list(inc), **ctx)
+        else:
+            viol("copula coupling: a coupled coarse value is not a state of the coarse grid (own axis of each coordinate)",
+                 finding="F-C03-3", increment=list(inc), value=list(v), **ctx)
+        return None
+    if faxes[0][0::2] != caxes[0] or faxes[1][0::2] != caxes[1]:
+        viol("copula grid: the even indices of the refined axes are not the coarse axes", **ctx)
+        return None
     worst, worst_dev = None, None
+    causes = {k: 0.0 for k in (alternatives or {})}
     for j in itertools.product(range(len(caxes[0])), range(len(caxes[1]))):
         if j == (o_coarse, o_coarse):
             continue
@@ -678,6 +843,8 @@ def oracle_nd(viol, c, coarse_chain, axis_coarse, o_coarse, ctx, tol=1e-6, predi
         val = (caxes[0][j[0]], caxes[1][j[1]])
         got = inflow.get(val, 0.0)
         pred = float(predicted.get(val, 0.0)) if predicted is not None else None
+        for k, alt in (alternatives or {}).items():
+            causes[k] = max(causes[k], abs(float(alt.get(val, 0.0)) - want) / (1 + abs(want)))
         if pred is not None and abs(got - pred) > tol * (1 + abs(want)) and (worst_dev is None or abs(got - pred) > abs(worst_dev[1] - worst_dev[3])):
             worst_dev = (j, got, want, pred)
         if abs(got - want) > tol * (1 + abs(want)) and (worst is None or abs(got - want) > abs(worst[1] - worst[2])):
@@ -689,17 +856,73 @@ def oracle_nd(viol, c, coarse_chain, axis_coarse, o_coarse, ctx, tol=1e-6, predi
     elif worst is not None:
         j, got, want, pred = worst
         extra = {"finding": "F-C03-1", "predicted": pred, "tol": tol} if pred is not None else {}
+        if alternatives:
+            extra.update(causes=causes, cause=cause_label(causes, tol))
         viol("copula coupling: sum over fine states of rate x P(coupled to y) differs from the previous level's rate of y",
              coarse_state=list(j), coarse_value=[caxes[0][j[0]], caxes[1][j[1]]], got=got, want=want, **extra, **ctx)
+    return causes
 
 
 KNOWN_TOL = {"nd-table": 1e-6, "nd-real": 1e-5}      # tolerances of the two oracle streams; NOT taken from the violation
 
 
+def build_nd_from_replay(r):
+    """the objects of a copula replay (kind nd-table / nd-real), rebuilt from its fields only: (coupling at level 1, chain on the un-refined grid,
+    coarse axes, table or None)"""
+    from rpylib.grid.spatial import CTMCGrid
+    from rpylib.process.markovchain.markovchainlevycopula import MarkovChainLevyCopula
+    from rpylib.distribution.sampling import SamplingMethod
+    from stepmeasure import Table2, table_copula_model, build_copula_model
+    table = None
+    if r["kind"] == "nd-table":
+        table = Table2([tuple(Fr(v) for v in p) for p in r["table"]])
+        model = table_copula_model(table, sigma=(0.5, 0.25), fv=tuple(r.get("fv", [True, True])))
+    else:
+        model = build_copula_model(r["models"], "clayton", theta=0.7, eta=0.3)
+    ax, ax1 = list(r["axis"]), list(r.get("axis1", r["axis"]))
+    grid = CTMCGrid(h=r["h"], origin_coordinate=r["o"], axes=[np.array(ax), np.array(ax1)])
+    with warnings.catch_warnings():
+        warnings.simplefilter("ignore")
+        coarse_chain = MarkovChainLevyCopula(levy_copula_model=model, grid=copy.deepcopy(grid), method=SamplingMethod.INVERSION)
+        c, product = build_coupling_nd(model, grid)
+        c.next_level(mc_paths=2, path_managers=None, product=product)
+    return c, coarse_chain, [ax, ax1], table
+
+
+def model_predictions_nd(c, table=None):
+    """the three model inflows on the real objects' own mass functions (floats; exact Fractions for a table whose support the grid covers):
+    code = the faithful two-measure model of the current code; margin_rule / second_measure = the two single-cause models; repaired = joint
+    rule with one measure (C03_telescoping_nd_joint: must give the coarse rates)"""
+    xs, ys = [float(x) for x in c.grid.axes[0]], [float(x) for x in c.grid.axes[1]]
+    o2 = c.grid.origin_coordinate.value[0]
+    fm, um = c.fine_process.model, c.model      # rates: the truncated chain model; corner masses: the un-truncated model (couplinglevycopula.py:177)
+
+    def fl(d):
+        return {(float(k[0]), float(k[1])): float(v) for k, v in d.items()}
+    with warnings.catch_warnings():
+        warnings.simplefilter("ignore")
+        f_joint = lambda a, b: float(fm.mass(a, b))                                # noqa: E731
+        f_marg = lambda k, a, b: float(fm.mass((a,), (b,), [k]))                   # noqa: E731
+        u_joint = lambda a, b: float(um.mass(a, b, [0, 1]))                        # noqa: E731
+        u_marg = lambda k, a, b: float(um.mass((a,), (b,), [k]))                   # noqa: E731
+        kw = dict(zero=0.0, axis2=ys)
+        return {"code": fl(faithful_inflow(xs, o2, f_joint, u_joint, u_marg, **kw)),
+                "margin_rule": fl(faithful_inflow(xs, o2, f_joint, f_joint, f_marg, **kw)),
+                "second_measure": fl(faithful_inflow(xs, o2, f_joint, u_joint, u_marg, rule="joint", **kw)),
+                "repaired": fl(faithful_inflow(xs, o2, f_joint, f_joint, f_marg, rule="joint", **kw))}
+
+
+_KNOWN_CACHE = {}
+
+
 def matches_known(v, known):
-    """F-C03-1 is accepted only for a copula telescoping mismatch (kind nd-table / nd-real) whose inflow is what the faithful
-    model of the recorded defect predicts (corner probabilities of one odd axis taken from the margin over that axis) and
-    whose prediction violates the property; the tolerance is the stream's constant"""
+    """F-C03-1 is accepted only for a copula telescoping mismatch (kind nd-table / nd-real) that is RE-COMPUTED here from the replay's input
+    fields alone: the objects are rebuilt, the implementation's coupled inflow of the reported coarse state is measured again (bisection on
+    the coupling uniform), the coarse rate is read again from the chain on the un-refined grid, and the faithful two-measure model of the
+    recorded defect (margin masses for one odd axis; corner masses from the un-truncated coupling_process.model, rates from the truncated
+    fine_process.model) is evaluated again.  Accepted iff the recomputed inflow (a) is the reported one, (b) equals the model's prediction
+    and (c) the prediction violates the property, all at the stream's constant tolerance, and (d) at least one of the two recorded causes is
+    active on this input (single-cause models).  The numbers written in the violation are only compared with, never trusted."""
     r = v.get("replay", {})
     if known.get("id") != "F-C03-1" or r.get("finding") != "F-C03-1" or r.get("kind") not in KNOWN_TOL:
         return False
@@ -707,8 +930,34 @@ def matches_known(v, known):
         return False
     if not all(isinstance(r.get(k), (int, float)) for k in ("predicted", "got", "want")):
         return False
-    tol = KNOWN_TOL[r["kind"]] * (1 + abs(r["want"]))
-    return abs(r["got"] - r["predicted"]) <= tol and abs(r["predicted"] - r["want"]) > tol
+    js = r.get("coarse_state")
+    if not (isinstance(js, list) and len(js) == 2 and all(isinstance(x, int) for x in js)) or tuple(js) == (r.get("o"), r.get("o")):
+        return False
+    key = json.dumps(r, sort_keys=True, default=str)
+    if key in _KNOWN_CACHE:
+        return _KNOWN_CACHE[key]
+    ok = False
+    try:
+        c, coarse_chain, caxes, table = build_nd_from_replay(r)
+        j = tuple(js)
+        val = (float(caxes[0][j[0]]), float(caxes[1][j[1]]))
+        inflow, err = implementation_inflow_nd(c, only=j)
+        if err is None:
+            got = inflow.get(val, 0.0)
+            with warnings.catch_warnings():
+                warnings.simplefilter("ignore")
+                want = float(coarse_chain.model.mass(*cell_nd(caxes, j)))
+            preds = model_predictions_nd(c, table)
+            pred = preds["code"].get(val, 0.0)
+            tol = KNOWN_TOL[r["kind"]] * (1 + abs(want))
+            reported = all(abs(x - y) <= 1e-9 * (1 + abs(x)) for x, y in ((got, r["got"]), (want, r["want"]), (pred, r["predicted"])))
+            causes = {k: abs(preds[k].get(val, 0.0) - want) for k in ("margin_rule", "second_measure")}
+            ok = (reported and abs(got - pred) <= tol and abs(pred - want) > tol and max(causes.values()) > tol
+                  and abs(preds["repaired"].get(val, 0.0) - want) <= tol)
+    except Exception:  # noqa: a replay that cannot be rebuilt is not the recorded finding
+        ok = False
+    _KNOWN_CACHE[key] = ok
+    return ok
 
 
 WITNESS_TABLE = [(Fr(1, 4), Fr(1, 2), Fr(-1, 4), Fr(0), 4), (Fr(1, 4), Fr(1, 2), Fr(0), Fr(1, 4), 4), (Fr(1, 2), Fr(3, 4), Fr(1, 4), 2, 4)]
@@ -792,7 +1041,7 @@ def _n_d(res, rng, viol, groups):
     from rpylib.montecarlo.path import MLMCPath
     from stepmeasure import Table2, table_copula_model, real_model_specs, build_copula_model, step_spec, random_step_measure
     thorough = res.tier == "thorough"
-    nd_cases, infl_cases = [], []
+    nd_cases, infl_cases, joint_cases, code2m_cases, sj_cases = [], [], [], [], []
     tables = [("witness", Table2(WITNESS_TABLE), AXES_POOL[0], AXES_POOL[0], 2, 1.0)]
     for k in range(3 if not thorough else 14):
         pool = AXES_POOL7 if k % 3 == 2 else AXES_POOL
@@ -853,10 +1102,64 @@ def _n_d(res, rng, viol, groups):
         for (j1, j2) in js:       # ties the Python re-statement to the Coq model Model/CouplingNd.v (inflow2)
             infl_cases.append(f"({table.coq()}, {lst([qlit(x) for x in ax0])}, {lst([qlit(x) for x in ax1])}, {natlit(o)}, {natlit(j1)}, {natlit(j2)}, "
                               f"{qlit(pred.get((Fr(ax0[j1]), Fr(ax1[j2])), Fr(0)))})")
-        oracle_nd(viol, c, coarse_chain, [ax0, ax1], o, ctx, predicted={(float(k[0]), float(k[1])): v for k, v in pred.items()})
+        # the JOINT rule (specification of a repair), exact Fractions: with ONE measure it must give the coarse rates (instance of
+        # C03_telescoping_nd_joint); tied to Coq's inflow2_joint_tab by the group jointnd
+        mq, mg = (lambda a, b: table.mass_q(a, b)), (lambda k, a, b: table.mass_q((a, -bigq), (b, bigq)) if k == 0 else table.mass_q((-bigq, a), (bigq, b)))
+        fxs, fys = [Fr(x) for x in xs], [Fr(y) for y in ys]
+        pred_joint = faithful_inflow(fxs, o2, mq, mq, mg, zero=Fr(0), axis2=fys, rule="joint")
+        for (j1, j2) in [(a, b) for a in range(len(ax0)) for b in range(len(ax1)) if (a, b) != (o, o)]:
+            lo, hi = cell_nd([[Fr(x) for x in ax0], [Fr(y) for y in ax1]], (j1, j2))
+            if pred_joint.get((Fr(ax0[j1]), Fr(ax1[j2])), Fr(0)) != table.mass_q(lo, hi):
+                res.broke("joint rule (specification) on a table", f"inflow of the joint rule differs from the coarse rate at {(j1, j2)} of table {name}")
+                break
+        # TWO MEASURES on tables: rates from this table, corner masses from ANOTHER table (Coq inflow2_code_tab / inflow2_joint_tab psr psc)
+        other = Table2(WITNESS_TABLE) if name != "witness" else random_table(rng, 2)
+        oq = (lambda a, b: other.mass_q(a, b))
+        obig = other.support_bound() + 1
+        og = (lambda k, a, b: other.mass_q((a, -obig), (b, obig)) if k == 0 else other.mass_q((-obig, a), (obig, b)))
+        pred_code_2m = faithful_inflow(fxs, o2, mq, oq, og, zero=Fr(0), axis2=fys)
+        pred_joint_2m = faithful_inflow(fxs, o2, mq, oq, og, zero=Fr(0), axis2=fys, rule="joint")
+        for (j1, j2) in js:
+            key = (Fr(ax0[j1]), Fr(ax1[j2]))
+            head = f"{lst([qlit(x) for x in ax0])}, {lst([qlit(x) for x in ax1])}, {natlit(o)}, {natlit(j1)}, {natlit(j2)}"
+            joint_cases.append(f"({table.coq()}, {table.coq()}, {head}, {qlit(pred_joint.get(key, Fr(0)))})")
+            joint_cases.append(f"({table.coq()}, {other.coq()}, {head}, {qlit(pred_joint_2m.get(key, Fr(0)))})")
+            code2m_cases.append(f"({table.coq()}, {other.coq()}, {head}, {qlit(pred_code_2m.get(key, Fr(0)))})")
+            res.count(("nd-2m", name, j1, j2), kind="two-measure / joint-rule model inflow (Coq vs exact Python re-statement)")
+        fl = (lambda d: {(float(k[0]), float(k[1])): float(v) for k, v in d.items()})
+        oracle_nd(viol, c, coarse_chain, [ax0, ax1], o, ctx, predicted=fl(pred), alternatives={"margin_rule": fl(pred), "second_measure": fl(pred_joint)})
+        # the joint rule EVALUATED ON THE REAL OBJECTS: __coupling_state replaced by the candidate repair; (1) its coupled value as a function of
+        # the uniform is Coq's coupling_state2_joint (group statejoint), (2) the oracle must find the identity (any report breaks the obligation)
+        with repaired_rule():
+            rep = []
+            oracle_nd(lambda what, **kw: rep.append((what, kw.get("coarse_state"), kw.get("got"), kw.get("want"))), c, coarse_chain, [ax0, ax1], o, {})
+            if rep:
+                res.broke("joint rule on the patched implementation (table)", f"table {name}: {rep[0]}")
+            res.count(("nd-repaired", name), kind="telescoping oracle on the implementation patched with the joint rule")
+            one_odd = [inc for inc in incs if (inc[0] % 2) + (inc[1] % 2) == 1]
+            for inc in (one_odd if len(one_odd) <= 24 else rng.sample(one_odd, 24)) + [i2 for i2 in incs if i2[0] % 2 and i2[1] % 2][:4]:
+                us = [rng.randrange(1, 2 ** 16) / 2 ** 16, 2.0 ** -12, 1 - 2.0 ** -12]
+                law = corner_law_nd(c, inc, tol_bits=30)
+                if law:
+                    acc = 0.0
+                    for vv, pr in list(law.items())[:-1]:
+                        acc += pr
+                        us += [max(2.0 ** -30, acc - 2.0 ** -20), min(1 - 2.0 ** -30, acc + 2.0 ** -20)]
+                for u in us:
+                    vv = coupling_state_nd_impl(c, inc, u)
+                    res.count(("nd-joint", name, inc, u), kind="repaired __coupling_state 2d (joint rule)")
+                    sj_cases.append(f"({table.coq()}, {lst([qlit(x) for x in xs])}, {lst([qlit(x) for x in ys])}, {natlit(o2)}, {zlit(inc[0])}, "
+                                    f"{zlit(inc[1])}, {qlit(u)}, {opt(vv, lambda t: '(' + qlit(t[0]) + ', ' + qlit(t[1]) + ')')})")
     groups.append(("inflownd", "list (Q * Q * Q * Q * Q) * list Q * list Q * nat * nat * nat * Q",
                    "fun c => match c with (ps, xs, ys, o, j1, j2, e) => "
                    "Qeq_bool (inflow2 ps (refine_axis amid xs) (refine_axis amid ys) (2 * o) (2 * j1) (2 * j2)) e end", infl_cases))
+    two_tab = "list (Q * Q * Q * Q * Q) * list (Q * Q * Q * Q * Q) * list Q * list Q * nat * nat * nat * Q"
+    groups.append(("jointnd", two_tab, "fun c => match c with (psr, psc, xs, ys, o, j1, j2, e) => "
+                   "Qeq_bool (inflow2_joint_tab psr psc (refine_axis amid xs) (refine_axis amid ys) (2 * o) (2 * j1) (2 * j2)) e end", joint_cases))
+    groups.append(("inflownd2m", two_tab, "fun c => match c with (psr, psc, xs, ys, o, j1, j2, e) => "
+                   "Qeq_bool (inflow2_code_tab psr psc (refine_axis amid xs) (refine_axis amid ys) (2 * o) (2 * j1) (2 * j2)) e end", code2m_cases))
+    groups.append(("statejoint", "list (Q * Q * Q * Q * Q) * list Q * list Q * nat * Z * Z * Q * option (Q * Q)",
+                   "fun c => match c with (ps, xs, ys, o, i1, i2, u, e) => oqq_eqb (table_coupling_state2_joint ps xs ys o i1 i2 u) e end", sj_cases))
     groups.append(("statend", "list (Q * Q * Q * Q * Q) * list Q * list Q * nat * Z * Z * Q * option (Q * Q)",
                    "fun c => match c with (ps, xs, ys, o, i1, i2, u, e) => oqq_eqb (table_coupling_state2 ps xs ys o i1 i2 u) e end", nd_cases))
     # real margins with a Clayton copula (tolerance): the experiment of DESIGN section 6, now with path managers
@@ -874,11 +1177,20 @@ def _n_d(res, rng, viol, groups):
             pms = [MLMCPath(deterministic_path=c.fine_process.deterministic_path, activate_spot_underlying=False)]
             frozen_check(viol, res, c, pms, product, ctx, "real")
         res.count(("nd-real", "HEMxHEM clayton"), kind="copula coupling, real margins")
-        fine_axis = [float(x) for x in c.grid.axes[0]]
-        fm, um = c.fine_process.model, c.model      # rates from the truncated chain model, corner masses from the un-truncated one (as the code)
-        pred = faithful_inflow(fine_axis, c.grid.origin_coordinate.value[0], lambda a, b: float(fm.mass(a, b)),
-                               lambda a, b: float(um.mass(a, b, [0, 1])), lambda k, a, b: float(um.mass((a,), (b,), [k])), zero=0.0)
-        oracle_nd(viol, c, coarse_chain, ax, 2, ctx, tol=1e-5, predicted=pred)
+        # rates from the truncated chain model, corner masses from the un-truncated one (as the code): BOTH causes of F-C03-1 are active here
+        preds = model_predictions_nd(c)
+        causes = oracle_nd(viol, c, coarse_chain, ax, 2, ctx, tol=1e-5, predicted=preds["code"],
+                           alternatives={k: preds[k] for k in ("margin_rule", "second_measure", "repaired")})
+        if causes is not None:
+            res.bump("nd_real_causes", cause_label(causes, 1e-5))
+            if causes.get("repaired", 0.0) > 1e-5:
+                res.broke("joint rule (specification) on real margins", f"joint rule with one measure misses the coarse rates by {causes['repaired']:.3g}")
+        with repaired_rule():       # the joint rule evaluated on the real objects (truncated HEM x HEM Clayton): the oracle must find the identity
+            rep = []
+            oracle_nd(lambda what, **kw: rep.append((what, kw.get("coarse_state"), kw.get("got"), kw.get("want"))), c, coarse_chain, ax, 2, {}, tol=1e-5)
+            if rep:
+                res.broke("joint rule on the patched implementation (real margins)", str(rep[0]))
+            res.count(("nd-repaired", "HEMxHEM clayton"), kind="telescoping oracle on the implementation patched with the joint rule")
         with warnings.catch_warnings():
             warnings.simplefilter("ignore")
             np.random.seed(res.seed % 2 ** 31)
@@ -1060,7 +1372,7 @@ def _sde(res, rng, viol, groups):
     from rpylib.process.coupling.couplingsde import CouplingSDE
     from rpylib.montecarlo.path import StochasticJumpPath, MLMCPath
     C16 = importlib.import_module("props.C16")
-    cases = []
+    cases, lvl_cases = [], []
     thorough = res.tier == "thorough"
     for ip in range(3 if not thorough else 12):
         kind = "diag" if ip % 2 else "const"
@@ -1082,6 +1394,9 @@ def _sde(res, rng, viol, groups):
         dcp = cp.driver_coupling_process
         prev_mu = float(np.ravel(cp.mc_drift_h)[0])
         prev_cf = None
+        spec16 = driver.c16_spec
+        axis0, o0, h0 = [float(x) for x in dcp.grid.axes[0]], dcp.grid.origin_coordinate.value, float(dcp.grid.h)
+        sig_chain_prev = level_chain_sigma(dcp)
         b_before = cp.fine_process.sde_drift
         for level in (1, 2, 3):
             ctx = dict(kind="sde", a=kind, c=cval, x0=x0, level=level)
@@ -1100,6 +1415,17 @@ def _sde(res, rng, viol, groups):
                         viol("SDE coupling: the coarse component does not carry the previous level's driver drift / diffusion coefficient / grid",
                              mu_2h=mu_2h, previous_mu_h=prev_mu, cc=cc, previous_cf=prev_cf, **ctx)
                     prev_mu, prev_cf = mu_h, cf
+                    # CouplingSDE calls the driver's next_level with path_managers=None: its two coefficients against chains built afresh, and the
+                    # driver's level machine against run_levels (group sdelevels)
+                    sig_chain = level_chain_sigma(dcp)
+                    oracle_sigma_1d(viol, dcp, sig_chain, sig_chain_prev, ctx)
+                    sig_chain_prev = sig_chain
+                    res.bump("sde_driver", f"{'INFINITE' if spec16['infinite_variation'] else 'finite'} variation, coefficient "
+                                           f"{'changes' if cf != cc else 'unchanged'} with h")
+                    lvl_cases.append(
+                        f"({nu.coq()}, {lst([qlit(x) for x in axis0])}, {natlit(o0)}, {qlit(h0)}, {qlit(float(dcp.fine_process.model.drift()))}, "
+                        f"{zlit(REP_VAL['CENTER'])}, {blit(not spec16['infinite_variation'])}, {qlit(spec16['a'])}, {qlit(spec16['sigma'])}, {natlit(level)}, "
+                        f"({lst([qlit(x) for x in xs])}, {qlit(float(dcp.grid.h))}, {natlit(o2)}, {qlit(cf ** 2)}, {qlit(cc ** 2)}, {qlit(mu_h)}, {qlit(mu_2h)}))")
                     # ---- one real coupled driver path, recorded
                     np.random.seed(rng.randrange(2 ** 31))
                     dcp.__dict__.pop("simulate_one_path_with_coupling", None)
@@ -1175,6 +1501,7 @@ def _sde(res, rng, viol, groups):
             res.bump("sde_drift_object", "replaced between levels")
     groups.append(("sde", "option Q * list (Q * Q * Q) * list Q * nat * Q * Q * Q * Q * list (Q * Q * option Z * Q * Q) * Q * Q "
                           "* (list (list Q) * list (list Q) * list (list Q)) * (list (list Q) * list (list Q) * list (list Q))", "sde_case_check", cases))
+    groups.append(("sdelevels", LEVELS_TY, LEVELS_CHECK, lvl_cases))
     _sde_libor_observation(res, rng, viol)
 
 
@@ -1237,10 +1564,16 @@ def replay(path):
         if k == "1d":
             grid = make_grid([Fr(x) for x in data["axis"]], data["o"], Fr(data["h"]))
             c, pms, product = build_coupling_1d(build_model(data["model"]), grid)
+            if not data.get("path_managers", True):
+                pms = None
+            sig_chain_prev = level_chain_sigma(c)
             for level in range(1, data.get("level", 1) + 1):
                 axis_coarse, o_coarse = c.grid.axes[0].copy(), c.grid.origin_coordinate.value
                 q_coarse = create_q_vector(c.fine_process.model.levy_triplet.nu, c.grid).copy()
                 c.next_level(mc_paths=2, path_managers=pms, product=product)
+                sig_chain = level_chain_sigma(c)
+                oracle_sigma_1d(viol, c, sig_chain, sig_chain_prev, {})
+                sig_chain_prev = sig_chain
                 oracle_level_1d(viol, c, q_coarse, axis_coarse, o_coarse, {})
         elif k == "1d-real":
             run_real_levels(viol, data["model"], data["grid"], data["params"], data["levels"], {})
@@ -1248,21 +1581,16 @@ def replay(path):
             _samplers(type("R", (), {"count": lambda *a, **kw: None, "seed": 1})(), random.Random(0),
                       lambda what, **kw: out.append((what, kw.get("method"))) if kw.get("method") == data["method"] else None)
         elif k in ("nd-table", "nd-real"):
-            from rpylib.grid.spatial import CTMCGrid
-            from rpylib.process.markovchain.markovchainlevycopula import MarkovChainLevyCopula
-            from rpylib.distribution.sampling import SamplingMethod
-            if k == "nd-table":
-                model = table_copula_model(Table2([tuple(Fr(v) for v in p) for p in data["table"]]), sigma=(0.5, 0.25),
-                                           fv=tuple(data.get("fv", [True, True])))
-            else:
-                model = build_copula_model(data["models"], "clayton", theta=0.7, eta=0.3)
-            ax = data["axis"]
-            ax1 = data.get("axis1", ax)
-            grid = CTMCGrid(h=data["h"], origin_coordinate=data["o"], axes=[np.array(ax), np.array(ax1)])
-            coarse_chain = MarkovChainLevyCopula(levy_copula_model=model, grid=copy.deepcopy(grid), method=SamplingMethod.INVERSION)
-            c, product = build_coupling_nd(model, grid)
-            c.next_level(mc_paths=2, path_managers=None, product=product)
-            oracle_nd(viol, c, coarse_chain, [ax, ax1], data["o"], {}, tol=1e-6 if k == "nd-table" else 1e-5)
+            c, coarse_chain, caxes, table = build_nd_from_replay(data)
+            preds = model_predictions_nd(c, table)
+            tol = KNOWN_TOL[k]
+            causes = oracle_nd(viol, c, coarse_chain, caxes, data["o"], {}, tol=tol, predicted=preds["code"],
+                               alternatives={n: preds[n] for n in ("margin_rule", "second_measure", "repaired")})
+            print("single-cause models, worst deviation from the coarse rates:", causes, "->", cause_label(causes or {}, tol))
+            with repaired_rule():
+                rep = []
+                oracle_nd(lambda what, **kw: rep.append(what), c, coarse_chain, caxes, data["o"], {}, tol=tol)
+                print("implementation patched with the joint rule (one measure):", "telescopes" if not rep else rep[:1])
         else:
             print("replay: re-run ./check C03")
             return 1
